@@ -491,6 +491,9 @@ def c09_outputs(rep, tier):
                     pth.decisions, rp)
             require(rep, getattr(hf, "__symx_hash_name__", getattr(hf, "__name__", "")) in ("sha256", "openssl_sha256"),
                     "%s.Sign uses SHA-256 for expand_message_xmd" % suite, pth.decisions, rp)
+            if not [e for e in W.encodes if e[0] == 2]:
+                rep.fail("%s.Sign does not encode a G2 point on this path" % suite, rp, detail=str(pth.decisions))
+                return
             enc_sig = [e for e in W.encodes if e[0] == 2][-1]
             from symx.blsmodel import Poly
             g, mdl = pth.ctx.prove(z3.And(enc_sig[1].k == (Poly.lift(he) * Poly.lift(sk.t)).z3(), enc_sig[1].t == 0, sig.t == enc_sig[2]))
@@ -513,6 +516,9 @@ def c09_outputs(rep, tier):
             rep.fail("PopProve raised %r" % (pth.value,), rp)
             return
         W, sk, proof = pth.value
+        if not W.hash_calls or not [e for e in W.encodes if e[0] == 1] or not [e for e in W.encodes if e[0] == 2]:
+            rep.fail("PopProve does not hash the public key to the curve / encode its result on this path (hash calls: %d)" % len(W.hash_calls), rp, detail=str(pth.decisions))
+            return
         hm, hd, hf, he = W.hash_calls[-1]
         pk_enc = [e for e in W.encodes if e[0] == 1][0]
         g, mdl = pth.ctx.prove(z3.And(hm.t == pk_enc[2], hd.t == SymBytes.concrete(POP_TAG).t, pk_enc[1].k == sk.t))
